@@ -231,7 +231,7 @@ pub fn enc_table(criteria: &SortedMap<CriteriaName, CriteriaEntry>) -> Toks {
     t
 }
 
-fn enc_audit(it: &Interner, a: &AuditEntry, t: &mut Toks) {
+pub fn enc_audit(it: &Interner, a: &AuditEntry, t: &mut Toks) {
     match &a.kind {
         AuditKind::Full { version } => {
             t.n(0).n(it.ver(version));
